@@ -42,6 +42,7 @@ CONSTANTS LeafIds,     \* leaves offered to Push
           BinOps,      \* binary operators offered to Chain
           BinMods,     \* modifier ids offered to Chain (see ModTable)
           Offsets,     \* offsets (ms, may be negative) offered to Offset
+          BadOffsets,  \* number tokens that are not representable durations, offered to OffsetBad
           AtMods,      \* @ modifiers offered to At
           Exts,        \* subset of {"anchored","smoothed"}
           Ranges,      \* range durations (ms)
@@ -336,6 +337,14 @@ WrapOffset(d) ==
      IN stack' = Append(Pop(1), [Top EXCEPT !.e = e2, !.toks = @ \o t, !.err = @ \/ bad])
   /\ nops' = nops + 1 /\ UNCHANGED done
 
+\* offset_expr with a number that is no valid duration ("duration out of range"): Inf, 1e10 - and NaN,
+\* which the parser nevertheless accepts (KNOWN DEVIATION KF-C26-2: durationLiteralOutOfRange(NaN) is
+\* false; the offset becomes MinInt64 ns and prints as "offset --106751d23h47m16s854ms")
+WrapOffsetBad(tok) ==
+  /\ Busy /\ stack # <<>> /\ Top.atomic /\ Top.pre = "" /\ IsSel(Top.e) /\ SelOff(Top.e) = 0
+  /\ stack' = Append(Pop(1), [Top EXCEPT !.toks = @ \o <<"offset", tok>>, !.err = TRUE])
+  /\ nops' = nops + 1 /\ UNCHANGED done
+
 AtToks(at) ==
   CASE at = <<"abs", 12500>> -> <<"@", "12.5">>
     [] at = <<"abs", -3000>> -> <<"@", "-3">>
@@ -460,6 +469,7 @@ Next == \/ \E id \in LeafIds : Push(id)
         \/ WrapParen
         \/ \E op \in UnOps : WrapUnary(op)
         \/ \E d \in Offsets : WrapOffset(d)
+        \/ \E tok \in BadOffsets : WrapOffsetBad(tok)
         \/ \E at \in AtMods : WrapAt(at)
         \/ \E x \in Exts : WrapExt(x)
         \/ \E r \in Ranges : WrapRange(r)
@@ -490,7 +500,8 @@ InfPowLHS(e) ==
     [] OTHER -> FALSE
 
 Result == [toks |-> Top.toks, ok |-> Accepted,
-           kf |-> IF Accepted /\ InfPowLHS(Full(Top)) THEN "infpow" ELSE "",
+           kf |-> IF Accepted /\ InfPowLHS(Full(Top)) THEN "infpow"
+                  ELSE IF \E n \in 1..(NToks - 1) : Top.toks[n] = "offset" /\ Top.toks[n + 1] = "NaN" THEN "offnan" ELSE "",
            ast |-> IF Accepted THEN Full(Top) ELSE NoneN,
            ty |-> IF Accepted THEN TypeOf(Full(Top)) ELSE "",
            muts |-> Muts]
